@@ -368,13 +368,13 @@ func c11RunVictim(r *ck.Run, st *pxStore, v c11Victim) {
 		default:
 			r.Outcome("mixed-state")
 			det["window"] = after + " / " + before
-			r.Violation(ck.JoinSig("crash", v.Name, "neither-previous-nor-new-state:"+c11DiffClass(pre2, post, got)), det)
+			r.Violation(ck.JoinSig("crash", v.Name, metaClass(st.Cfg), "neither-previous-nor-new-state:"+c11DiffClass(pre2, post, got)), det)
 			continue
 		}
 		// the acknowledged unrelated object is still there
 		og, err := st.B.GetObject(st.ctx(), &s3.GetObjectInput{Bucket: sp(c11Bucket), Key: sp("other/acked"), Range: sp("")})
 		if err != nil {
-			r.Violation(ck.JoinSig("crash", v.Name, "acknowledged-object-lost"), det)
+			r.Violation(ck.JoinSig("crash", v.Name, metaClass(st.Cfg), "acknowledged-object-lost"), det)
 		} else {
 			og.Body.Close()
 		}
@@ -382,7 +382,7 @@ func c11RunVictim(r *ck.Run, st *pxStore, v c11Victim) {
 		nv := mkval(2)
 		if _, err := st.B.PutObject(st.ctx(), s3response.PutObjectInput{Bucket: sp(c11Bucket), Key: &v.Key, Body: bytes.NewReader(nv.Body), ContentLength: i64(int64(len(nv.Body)))}); err != nil && !strings.Contains(err.Error(), "lock") {
 			det["followup_error"] = err.Error()
-			r.Violation(ck.JoinSig("crash", v.Name, "later-PUT-fails:"+errClassAPI(err)), det)
+			r.Violation(ck.JoinSig("crash", v.Name, metaClass(st.Cfg), "later-PUT-fails:"+errClassAPI(err)), det)
 		}
 	}
 	if v.Name == "PutObject overwrite" && !st.Cfg.NoTmp && !st.Cfg.Versioning && !st.Cfg.Sidecar {
@@ -391,6 +391,14 @@ func c11RunVictim(r *ck.Run, st *pxStore, v c11Victim) {
 }
 
 func cfgClass(c pxCfg) string { return c.String() }
+
+// metaClass: the metadata store is part of a crash signature (the sidecar store has its own, listed, windows).
+func metaClass(c pxCfg) string {
+	if c.Sidecar {
+		return "sidecar"
+	}
+	return "xattr"
+}
 
 func stepClass(label string) string {
 	f := strings.Fields(label)
